@@ -121,7 +121,7 @@ func modelBytesClone(ex *Exec, st *State, fn *types.Func, args []*Val, e *ast.Ca
 	arr := ex.fresh("clonearr", arrSort(SInt, SByte))
 	k := mk("k?", SInt)
 	m := ex.mem(st, tByte)
-	st.assume(forall([]*Term{k}, implies(and(ge(k, intLit(0)), lt(k, ex.sLen(s))), eq(sel(arr, k), sel(sel(m, ex.sRef(s)), add(ex.sOff(s), k)))), []*Term{sel(arr, k)}))
+	st.assume(forall([]*Term{k}, implies(and(ge(k, intLit(0)), lt(k, ex.sLen(s))), eq(sel(arr, k), sel(sel(m, ex.sRef(s)), ex.ix(ex.sOff(s), k)))), []*Term{sel(arr, k)}))
 	name, _ := ex.memName(tByte)
 	st.heaps[name] = ite(isNil, m, store(m, ref, arr))
 	return []*Val{{T: args[0].T, Term: r}}, true
@@ -485,7 +485,20 @@ func (ex *Exec) mergeStates(prefix int, outs []flowOut, nres int) (*State, []*Va
 	for i, o := range outs {
 		// name each path guard so that later terms stay small
 		g := ex.fresh("pathg", SBool)
-		m.pc = append(m.pc, eq(g, and(o.st.pc[min(prefix, len(o.st.pc)):]...)))
+		var qf, quant []*Term
+		for _, f := range o.st.pc[min(prefix, len(o.st.pc)):] {
+			if hasQuantifier(f) {
+				quant = append(quant, f)
+			} else {
+				qf = append(qf, f)
+			}
+		}
+		// the guard is the quantifier-free part (branch conditions and
+		// definitions); quantified facts of the path hold under the guard
+		m.pc = append(m.pc, eq(g, and(qf...)))
+		for _, f := range quant {
+			m.pc = append(m.pc, implies(g, f))
+		}
 		guards[i] = g
 	}
 	m.pc = append(m.pc, or(guards...))
@@ -623,4 +636,19 @@ func (ex *Exec) mergeStates(prefix int, outs []flowOut, nres int) (*State, []*Va
 		}
 	}
 	return m, rets
+}
+
+func hasQuantifier(t *Term) bool {
+	if t == nil {
+		return false
+	}
+	if t.Op == "forall" || t.Op == "exists" {
+		return true
+	}
+	for _, a := range t.Args {
+		if hasQuantifier(a) {
+			return true
+		}
+	}
+	return false
 }
